@@ -18,7 +18,8 @@ From SCC Require Import Model.Check Model.Fun2Core Model.Backend Model.Focus Mod
 From SCC Require Import Proof.SubstGraph Proof.CodegenTotal Proof.CodegenX86 Proof.CodegenA64 Proof.CodegenRV
      Proof.AxToLin Proof.LinearizeProof Proof.ShrinkProof Proof.ShrinkSem Proof.ShrinkTyping Proof.WtPreserve Proof.FocusExamples Proof.WtExamples.
 From SCC Require Import Sem.FsFrag2 Proof.ShrinkExample2 Proof.ShrinkTyTop.
-From SCC Require Import Model.Fun2CoreTyGuard Proof.Fun2CoreTyRefute.
+From SCC Require Import Model.Fun2CoreTyGuard Proof.Fun2CoreTyRefute Proof.Fun2CoreTyChecked.
+From SCC Require Proof.CheckFixed.
 From SCC Require Import Model.Uniquify Model.FocusTyGuard Proof.Fun2CoreProof Proof.Fun2CoreExamples Proof.Fun2CoreTyProg Proof.Fun2CoreTyTotal
      Proof.Fun2CoreIds Proof.UqTyTop Proof.FocusTyTop Proof.FocusNamesTop Proof.WtPipeline Proof.WtExamples2.
 Import ListNotations.
@@ -34,8 +35,9 @@ Definition fun2core_preserves_typing_unguarded : Prop :=
   exists c, compile_prog p = Fun2Core.Ok c /\ wt_core c = true.
 (* the guarded form of round 1: binders of each definition pairwise distinct and distinct from
    its parameters (no shadowing, so the capture defect of fun2core cannot strike).  It is hypothesis
-   H_fun2core_wt of C12_pipeline_wt_partial.  Round 2: FALSE as it stands (C12_fun2core_main_result_refuted:
-   a `main` of a non-integer type, and a call of `main`, are accepted and satisfy barendregt); PROVED inside
+   H_fun2core_wt of C12_pipeline_wt_partial.  Round 2: FALSE as it stands (C12_fun2core_call_main_typing_refuted:
+   a call of `main` is accepted and satisfies barendregt; until fix <commit12> of /repo also a `main` of a non-integer
+   type: C12_regression_old_check_main_result); PROVED inside
    the boolean guard prog_tyguard (C12_fun2core_preserves_typing_fragment2 + C12_fun2core_total_fragment2 +
    C12_fun2core_pre_check). *)
 Definition fun2core_preserves_typing : Prop :=
@@ -87,20 +89,46 @@ Theorem C12_fun2core_typing_refuted :
 Proof. exact fun2core_typing_refuted_lemma. Qed.
 Print Assumptions C12_fun2core_typing_refuted.
 
-(* REFUTED a second time, without capture and without a call of main (finding main-non-integer-result):
-   `data Bar { B }  def main(): Bar { B }` is accepted - Program::check never constrains the return type of
-   main - and compile_main types the operand of the final `exit` with the annotation of the body:
-   < B | Bar | mu~ x0. exit x0 >  with x0 : Bar in an integer position.  The program satisfies the Barendregt
-   condition (so H_fun2core_wt / fun2core_preserves_typing as stated above are FALSE as well), has no
-   shadowing risk and calls no main; it is outside prog_tyguard (the body of main must have type i64). *)
-Theorem C12_fun2core_main_result_refuted :
+(* REGRESSION (former finding main-non-integer-result, fixed in /repo by <commit12>: Def::check compares the declared
+   return type of main with i64).  `data Bar { B }  def main(): Bar { B }` was accepted by the checker that never
+   constrained the return type of main ([Check.old_check_main] = the code before the fix), and compile_main types the
+   operand of the final `exit` with the annotation of the body:  < B | Bar | mu~ x0. exit x0 >  with x0 : Bar in an
+   integer position.  The program satisfies the Barendregt condition, has no shadowing risk and calls no main.  The
+   current checker rejects it with Mismatch, and the typing rules (Sem/FunTyping.v: main : i64) reject it too - the
+   witness corpus/fun/c12_main_nonint.sc discriminates. *)
+Theorem C12_regression_old_check_main_result :
   exists (src : fprog) (p : fcprog) (c : cprog),
-    has_type_b src = true /\ Check.check src = COk p /\ annotated_fcprog p = true /\
+    Check.old_check_main src = COk p /\ Check.check src = CErr EMismatch /\ has_type_b src = false /\
+    annotated_fcprog p = true /\
     compile_prog p = Fun2Core.Ok c /\ wt_core c = false /\
     shadowing_risk_prog p = false /\ calls_main_prog p = false /\ barendregt p = true /\
     prog_tyguard p = false.
-Proof. exact fun2core_main_result_refuted_lemma. Qed.
-Print Assumptions C12_fun2core_main_result_refuted.
+Proof. exact old_fun2core_main_result_refuted_lemma. Qed.
+Print Assumptions C12_regression_old_check_main_result.
+(* since the fix: in every checked program, every definition named main returns i64 (all programs, no guard) *)
+Theorem C12_checked_main_is_integer : forall src p d,
+  Check.check src = COk p -> In d (fcpdefs p) -> fdname d = "main"%string -> fdret d = FI64.
+Proof. exact CheckFixed.check_main_i64. Qed.
+Print Assumptions C12_checked_main_is_integer.
+
+(* The unguarded statement (and its Barendregt-guarded form fun2core_preserves_typing = H_fun2core_wt) stays FALSE of
+   the current checker because of the known finding call-to-main (C02): corpus/fun/call_main_nontail.sc is accepted,
+   well-typed by the rules, satisfies the Barendregt condition and has no shadowing risk; its translation calls
+   `main(0, mu~ r. ..)` against `def main(n: prd i64)`: wrong number of arguments. *)
+Theorem C12_fun2core_call_main_typing_refuted :
+  exists (src : fprog) (p : fcprog) (c : cprog),
+    has_type_b src = true /\ Check.check src = COk p /\ annotated_fcprog p = true /\
+    compile_prog p = Fun2Core.Ok c /\ wt_core c = false /\
+    shadowing_risk_prog p = false /\ calls_main_prog p = true /\ barendregt p = true /\
+    prog_tyguard p = false.
+Proof. exact fun2core_call_main_typing_refuted_lemma. Qed.
+Print Assumptions C12_fun2core_call_main_typing_refuted.
+Theorem C12_fun2core_preserves_typing_refuted : ~ fun2core_preserves_typing.
+Proof.
+  intro H. destruct fun2core_call_main_typing_refuted_lemma as (src & p & c & _ & Hc & _ & Ec & Hw & _ & _ & Hb & _).
+  destruct (H src p Hc Hb) as (c' & Ec' & Hw' & _). rewrite Ec in Ec'. inversion Ec'; subst. rewrite Hw in Hw'. discriminate.
+Qed.
+Print Assumptions C12_fun2core_preserves_typing_refuted.
 
 (* PROVED INSIDE A BOOLEAN GUARD ON THE ANNOTATED CHECKED PROGRAM (round 2).  [prog_tyguard p]
    (Model/Fun2CoreTyGuard.v) = for every definition
@@ -112,7 +140,8 @@ Print Assumptions C12_fun2core_main_result_refuted.
           destructors, labels/goto, consumer arguments;
      NOT shadowing_risk   the syntactic detector of the known finding capture-under-binder (the one modelrun uses):
           the translation never places a continuation under a let variable / clause parameter whose name is free in it;
-     no call of `main` (known finding call-to-main);  the body of `main` has type i64 (finding main-non-integer-result);
+     no call of `main` (known finding call-to-main);  the body of `main` has type i64 (for a program that comes out of
+          the checker this clause is implied since fix <commit12>: C12_fun2core_preserves_typing_checked below);
      parameters pairwise distinct and of declared types;
    and for the program: type names pairwise distinct and different from _Cont, xtor names distinct within a type,
    definition names distinct (what check_core asks of declarations).
@@ -133,6 +162,37 @@ Print Assumptions C12_fun2core_preserves_typing_fragment2.
 Theorem C12_fun2core_total_fragment2 : forall p, prog_tyguard p = true -> exists c, compile_prog p = Fun2Core.Ok c.
 Proof. exact fun2core_total_guarded. Qed.
 Print Assumptions C12_fun2core_total_fragment2.
+
+(* FOR CHECKED PROGRAMS the clause about main's type is not needed (fix <commit12>: the checker enforces main : i64).
+   [prog_tyguard_src p] (Proof/Fun2CoreTyChecked.v) = prog_tyguard with main treated like every other definition: the
+   annotated body has the declared return type and that type is declared - nothing about i64.  For a program that
+   Program::check produced the two guards coincide. *)
+Theorem C12_tyguard_checked : forall src p,
+  Check.check src = COk p -> (prog_tyguard_src p = true <-> prog_tyguard p = true).
+Proof.
+  intros src p H. pose proof (CheckFixed.check_gen_main_i64 true src p H) as Hm. split.
+  - exact (tyguard_src_main p Hm).
+  - exact (tyguard_main_src p Hm).
+Qed.
+Print Assumptions C12_tyguard_checked.
+Theorem C12_fun2core_preserves_typing_checked : forall src p c,
+  Check.check src = COk p -> prog_tyguard_src p = true -> compile_prog p = Fun2Core.Ok c -> wt_core c = true.
+Proof. exact fun2core_preserves_typing_checked. Qed.
+Print Assumptions C12_fun2core_preserves_typing_checked.
+Theorem C12_fun2core_total_checked : forall src p,
+  Check.check src = COk p -> prog_tyguard_src p = true -> exists c, compile_prog p = Fun2Core.Ok c.
+Proof. exact fun2core_total_checked. Qed.
+Print Assumptions C12_fun2core_total_checked.
+(* non-vacuity: the five example programs satisfy the guard.  The guard ALONE does not exclude the former witness
+   `def main(): Bar { B }` (as an annotated program its body has the declared type, so it is inside prog_tyguard_src and
+   outside prog_tyguard): what excludes it from the theorem is the hypothesis `check src = COk p` - its source is
+   rejected *)
+Example C12_tyguard_src_examples :
+  forallb prog_tyguard_src [ex_calls; ex_shared; ex_data; ex_labels; ex_codata] = true
+  /\ prog_tyguard_src main_nonint_witness = true /\ prog_tyguard main_nonint_witness = false
+  /\ Check.check main_nonint_source = CErr EMismatch.
+Proof. split; [vm_compute; reflexivity|]. split; [vm_compute; reflexivity|]. split; vm_compute; reflexivity. Qed.
+Print Assumptions C12_tyguard_src_examples.
 
 (* Every output of fun2core satisfies C03's precondition pre_check (every variable identifier is Identifier::new,
    id 0, and max_id = 0) - for ALL programs, no guard.  Discharges the stage-output hypothesis `pre_check c` of the
@@ -435,7 +495,7 @@ Print Assumptions C12_pipeline_wt_fragment2.
    Conclusion: every stage succeeds (no internal failure), every intermediate program is accepted by its checker and
    each code generator returns Ok within its documented capacity.  Replaces H_fun2core_wt and H_focus_wt of
    C12_pipeline_wt_fragment2 (H_focus_wt is false as stated, see above; H_fun2core_wt is false by
-   C12_fun2core_main_result_refuted). *)
+   C12_fun2core_preserves_typing_refuted). *)
 Theorem C12_pipeline_wt : forall p,
   prog_tyguard p = true ->
   (forall c f, compile_prog p = Fun2Core.Ok c -> focus_prog c = Backend.Ok f ->
@@ -473,6 +533,23 @@ Theorem C12_pipeline_wt_source : forall p,
     (forall lc, within_capacity_rv l = true -> exists code lc', rv_compile l lc = Backend.Ok (code, main_arity l, lc')).
 Proof. exact pipeline_wt_source_lemma. Qed.
 Print Assumptions C12_pipeline_wt_source.
+(* ... and for a program that comes out of the checker, with the guard that says nothing about main's type
+   (fix <commit12>): *)
+Theorem C12_pipeline_wt_checked : forall src p,
+  Check.check src = COk p -> prog_tyguard_src p = true -> xtor_tys_guard p = true ->
+  exists c f a,
+    compile_prog p = Fun2Core.Ok c /\ wt_core c = true /\
+    focus_prog c = Backend.Ok f /\ wt_fs f = true /\
+    shrink_prog f = SOk a /\ AxCheck.wt_ax a = true /\ prog_ok a = true /\
+    let l := linearize a in
+    lin_check_prog l = true /\
+    (forall lc, within_capacity_x86 l = true -> exists code lc', x86_compile l lc = Backend.Ok (code, main_arity l, lc')) /\
+    (forall lc, within_capacity_a64 l = true -> exists code lc', a64_compile l lc = Backend.Ok (code, main_arity l, lc')) /\
+    (forall lc, within_capacity_rv l = true -> exists code lc', rv_compile l lc = Backend.Ok (code, main_arity l, lc')).
+Proof.
+  intros src p H G X. exact (pipeline_wt_source_lemma p (tyguard_src_checked true src p H G) X).
+Qed.
+Print Assumptions C12_pipeline_wt_checked.
 (* non-vacuity: the five example programs satisfy both source guards *)
 Theorem C12_pipeline_wt_source_examples :
   forallb (fun p => prog_tyguard p && xtor_tys_guard p) [ex_calls; ex_shared; ex_data; ex_labels; ex_codata] = true.
